@@ -155,11 +155,78 @@ theorem cacheOk_cons (cfg : Cfg) (c : Cache) (h : Str) (b : Bool) (hc : CacheOk 
     simp only [he'] at hg
     exact hc h' b' hg
 
-/-- `is_allowed` answers the Spec's `shouldRoute`. -/
+/-- A classification "now": without a transient fault it is the steady-state classification,
+    with one it is `None`. -/
+theorem isExternalNow_spec (cfg : Cfg) (lk : Lookups) (h : Str) :
+    ((isExternalNow cfg lk h).2.2 = false → (isExternalNow cfg lk h).1 = isExternalRaw cfg h) ∧
+    ((isExternalNow cfg lk h).2.2 = true → (isExternalNow cfg lk h).1 = .ok none) := by
+  unfold isExternalNow isExternalRaw
+  by_cases hv : validateIp h = true
+  · simp [hv]
+  · have hv' : validateIp h = false := by simpa using hv
+    simp only [hv', Bool.false_eq_true, if_false]
+    by_cases ht : lookupCount lk h < cfg.transientFor h
+    · simp [ht]
+    · simp [ht]
+
+/-- `_is_external`: the Spec's `external` unless the resolver failed transiently (then "no", and
+    nothing is stored). -/
+theorem isExternal_spec (cfg : Cfg) (hw : cfg.wf = true) (c : Cache) (hc : CacheOk cfg c)
+    (lk : Lookups) (h : Str) :
+    CacheOk cfg (isExternal cfg c lk h).cache ∧
+    ((isExternal cfg c lk h).fault = false → (isExternal cfg c lk h).allowed = external cfg h) ∧
+    ((isExternal cfg c lk h).fault = true → (isExternal cfg c lk h).allowed = false ∧
+      (isExternal cfg c lk h).cache = c) := by
+  unfold isExternal
+  cases hg : cacheGet c h with
+  | some b =>
+    have := hc h b hg
+    have hs := isExternalRaw_spec cfg hw h
+    rw [this] at hs
+    simp only at hs
+    simp [hs, hc]
+  | none =>
+    simp only
+    obtain ⟨hnf, hf⟩ := isExternalNow_spec cfg lk h
+    rcases hn : isExternalNow cfg lk h with ⟨r, lk', f⟩
+    rw [hn] at hnf hf
+    simp only at hnf hf
+    cases f with
+    | true =>
+      have := hf rfl
+      subst this
+      simp [hc]
+    | false =>
+      have hr := hnf rfl
+      have hs := isExternalRaw_spec cfg hw h
+      cases r with
+      | error e =>
+        have hx := external_false_of_raise cfg hw h e hr.symm
+        simp [hx, hc]
+      | ok ob =>
+        cases ob with
+        | none =>
+          rw [← hr] at hs
+          simp only at hs
+          simp [hs, hc]
+        | some b =>
+          rw [← hr] at hs
+          simp only at hs
+          simp only
+          refine ⟨cacheOk_cons cfg c h b hc hr.symm, ?_, ?_⟩
+          · intro _; exact hs.symm
+          · intro hh; exact absurd hh (by simp)
+
+/-- `is_allowed` answers the Spec's `shouldRoute`, unless the resolver failed transiently during
+    the decision: then it answers "no" and stores nothing. -/
 theorem isAllowed_spec (cfg : Cfg) (hw : cfg.wf = true) (c : Cache) (hc : CacheOk cfg c)
-    (h : Str) (hdr : Hdr) :
-    (isAllowed cfg (mkFilter cfg) c h hdr).1 = shouldRoute cfg h hdr ∧
-    CacheOk cfg (isAllowed cfg (mkFilter cfg) c h hdr).2 := by
+    (lk : Lookups) (h : Str) (hdr : Hdr) :
+    CacheOk cfg (isAllowed cfg (mkFilter cfg) c lk h hdr).cache ∧
+    ((isAllowed cfg (mkFilter cfg) c lk h hdr).fault = false →
+      (isAllowed cfg (mkFilter cfg) c lk h hdr).allowed = shouldRoute cfg h hdr) ∧
+    ((isAllowed cfg (mkFilter cfg) c lk h hdr).fault = true →
+      (isAllowed cfg (mkFilter cfg) c lk h hdr).allowed = false ∧
+      (isAllowed cfg (mkFilter cfg) c lk h hdr).cache = c) := by
   unfold isAllowed
   rw [mkFilter_valid, mkFilter_allow]
   by_cases hu : listsUsable cfg = true
@@ -178,32 +245,11 @@ theorem isAllowed_spec (cfg : Cfg) (hw : cfg.wf = true) (c : Cache) (hc : CacheO
         · have hb' : (blockEntries cfg).contains h = false := by simpa using hb
           have hm : ¬ h ∈ blockEntries cfg := fun m => hb (List.contains_iff_mem.mpr m)
           simp only [hb', Bool.not_false, if_true]
-          unfold isExternal
-          cases hg : cacheGet c h with
-          | some b =>
-            have := hc h b hg
-            have hs := isExternalRaw_spec cfg hw h
-            rw [this] at hs
-            simp only at hs
-            simp [shouldRoute, hu, ho, ha, hm, hs, hc]
-          | none =>
-            have hs := isExternalRaw_spec cfg hw h
-            cases hr : isExternalRaw cfg h with
-            | error e =>
-              have hx := external_false_of_raise cfg hw h e hr
-              simp [shouldRoute, hu, ho, ha, hm, hx, hc]
-            | ok ob =>
-              cases ob with
-              | none =>
-                rw [hr] at hs
-                simp only at hs
-                simp [shouldRoute, hu, ho, ha, hm, hs, hc]
-              | some b =>
-                rw [hr] at hs
-                simp only at hs
-                simp only
-                refine ⟨by simp [shouldRoute, hu, ho, ha, hm, hs], ?_⟩
-                exact cacheOk_cons cfg c h b hc hr
+          obtain ⟨h1, h2, h3⟩ := isExternal_spec cfg hw c hc lk h
+          refine ⟨h1, ?_, h3⟩
+          intro hf
+          rw [h2 hf]
+          simp [shouldRoute, hu, ho, ha, hm]
   · have hu' : listsUsable cfg = false := by simpa using hu
     simp [shouldRoute, hu', hc]
 
@@ -272,18 +318,18 @@ theorem onError_spec (cfg : Cfg) (s : St) :
 /-- One call: the invariant is kept and the observed event satisfies the Spec. -/
 theorem call_spec (cfg : Cfg) (hw : cfg.wf = true) (s : St) (r : Ref) (hrel : Rel cfg s r)
     (c : CallIn) :
-    Rel cfg (call cfg s c).1 (r.next cfg ⟨s.now, c, (call cfg s c).2⟩) ∧
+    Rel cfg (call cfg s c).1 (r.next cfg ⟨s.now, c, (call cfg s c).2, callFault cfg s c⟩) ∧
     (call cfg s c).1.now = s.now ∧
-    eventOk cfg r ⟨s.now, c, (call cfg s c).2⟩ = true := by
+    eventOk cfg r ⟨s.now, c, (call cfg s c).2, callFault cfg s c⟩ = true := by
   obtain ⟨hrel1, hnow, hcnt1, hcache1, hstart1, hok1⟩ := stateOk_spec cfg s r hrel
-  unfold call
+  unfold call callFault
   generalize stateOk cfg s = s1 at *
   obtain ⟨hcnt, hop, hcl, hca⟩ := hrel1
   by_cases hopen : r.isOpen cfg s.now = true
   · -- breaker open: straight to the provider, counter reset
     have hokf : s1.ok = false := by rw [hok1, hopen]; rfl
-    simp only [hokf, Bool.false_eq_true, if_false, directLeg, List.nil_append]
-    have hnext : r.next cfg ⟨s.now, c, ⟨[.direct], directResult c⟩⟩ = ⟨0, r.trip⟩ := by
+    simp only [hokf, Bool.false_eq_true, if_false, directLeg, List.nil_append, Bool.false_and]
+    have hnext : r.next cfg ⟨s.now, c, ⟨[.direct], directResult c⟩, false⟩ = ⟨0, r.trip⟩ := by
       simp [Ref.next, gwTried]
     rw [hnext]
     refine ⟨⟨rfl, ?_, ?_, hca⟩, hnow, ?_⟩
@@ -294,97 +340,105 @@ theorem call_spec (cfg : Cfg) (hw : cfg.wf = true) (s : St) (r : Ref) (hrel : Re
     have hopen' : r.isOpen cfg s.now = false := by simpa using hopen
     have hokt : s1.ok = true := by rw [hok1, hopen']; rfl
     have hcl' : r.isOpen cfg s1.now = false := hcl hokt
-    simp only [hokt, if_true]
-    obtain ⟨hb, hca'⟩ := isAllowed_spec cfg hw s1.cache hca c.host c.hdr
-    cases hal : isAllowed cfg (mkFilter cfg) s1.cache c.host c.hdr with
-    | mk b cache =>
-      rw [hal] at hb hca'
-      simp only at hb hca'
-      cases b with
-      | false =>
-        have hroute : shouldRoute cfg c.host c.hdr = false := hb.symm
-        simp only [directLeg, List.nil_append]
-        have hnext : r.next cfg ⟨s.now, c, ⟨[.direct], directResult c⟩⟩ = ⟨0, r.trip⟩ := by
-          simp [Ref.next, gwTried]
+    simp only [hokt, if_true, Bool.true_and]
+    obtain ⟨hca', hnf, hf⟩ := isAllowed_spec cfg hw s1.cache hca s1.lookups c.host c.hdr
+    rcases hal : isAllowed cfg (mkFilter cfg) s1.cache s1.lookups c.host c.hdr with ⟨b, cache, lk', f⟩
+    rw [hal] at hca' hnf hf
+    simp only at hca' hnf hf
+    cases b with
+    | false =>
+      have hroute : shouldRoute cfg c.host c.hdr = false ∨ f = true := by
+        cases f with
+        | true => right; rfl
+        | false => left; exact (hnf rfl).symm
+      simp only [directLeg, List.nil_append, Bool.false_eq_true, if_false]
+      have hnext : r.next cfg ⟨s.now, c, ⟨[.direct], directResult c⟩, f⟩ = ⟨0, r.trip⟩ := by
+        simp [Ref.next, gwTried]
+      rw [hnext]
+      refine ⟨⟨rfl, ?_, ?_, hca'⟩, hnow, ?_⟩
+      · intro h; first | exact absurd h (by simp) | (simp only at h; rw [hokt] at h; exact absurd h (by simp))
+      · intro _; exact hcl'
+      · rcases hroute with hroute | hroute <;>
+          simp [eventOk, noSwallow, cooldownRespected, filterRespected, recovers, gwTried, hopen', hroute]
+    | true =>
+      have hff : f = false := by
+        cases f with
+        | false => rfl
+        | true => exact absurd (hf rfl).1 (by simp)
+      subst hff
+      have hroute : shouldRoute cfg c.host c.hdr = true := (hnf rfl).symm
+      simp only [gwLeg, if_true]
+      cases hg : c.gw with
+      | ok =>
+        simp only
+        have hnext : r.next cfg ⟨s.now, c, ⟨[.gw], .respGw⟩, false⟩ = ⟨0, r.trip⟩ := by
+          simp [Ref.next, gwTried, hg, GwOut.failed]
         rw [hnext]
         refine ⟨⟨rfl, ?_, ?_, hca'⟩, hnow, ?_⟩
         · intro h; first | exact absurd h (by simp) | (simp only at h; rw [hokt] at h; exact absurd h (by simp))
         · intro _; exact hcl'
-        · simp [eventOk, noSwallow, cooldownRespected, filterRespected, recovers, gwTried, hopen', hroute]
-      | true =>
-        have hroute : shouldRoute cfg c.host c.hdr = true := hb.symm
-        simp only [gwLeg]
-        cases hg : c.gw with
-        | ok =>
-          simp only
-          have hnext : r.next cfg ⟨s.now, c, ⟨[.gw], .respGw⟩⟩ = ⟨0, r.trip⟩ := by
-            simp [Ref.next, gwTried, hg, GwOut.failed]
-          rw [hnext]
-          refine ⟨⟨rfl, ?_, ?_, hca'⟩, hnow, ?_⟩
-          · intro h; first | exact absurd h (by simp) | (simp only at h; rw [hokt] at h; exact absurd h (by simp))
-          · intro _; exact hcl'
-          · simp [eventOk, noSwallow, cooldownRespected, filterRespected, recovers, gwTried, hopen', hroute, hg]
-        | appExc =>
-          simp only
-          have hnext : r.next cfg ⟨s.now, c, ⟨[.gw], .raiseGwApp⟩⟩ = r := by
-            simp [Ref.next, gwTried, hg, GwOut.failed]
-          rw [hnext]
-          refine ⟨⟨hcnt, ?_, ?_, hca'⟩, hnow, ?_⟩
-          · intro h; first | exact absurd h (by simp) | (simp only at h; rw [hokt] at h; exact absurd h (by simp))
-          · intro _; exact hcl'
-          · simp [eventOk, noSwallow, cooldownRespected, filterRespected, recovers, gwTried, hopen', hroute, hg]
-        | connErr =>
-          simp only [directLeg, List.cons_append, List.nil_append]
-          obtain ⟨e1, e2, e3, e4⟩ := onError_spec cfg { cnt := s1.cnt, ok := true, start := s1.start, now := s1.now, cache := cache }
-          simp only at e1 e2 e3 e4
-          have hnext : r.next cfg ⟨s.now, c, ⟨[.gw, .direct], directResult c⟩⟩ =
-              ⟨r.streak + 1, if decide (cfg.maxEff ≤ r.streak + 1) then some s.now else r.trip⟩ := by
-            simp [Ref.next, gwTried, hg, GwOut.failed]
-          rw [hnext]
-          refine ⟨⟨by rw [e1, hcnt], ?_, ?_, by rw [e3]; exact hca'⟩, by rw [e2]; exact hnow, ?_⟩
-          · intro hf
-            by_cases hm : cfg.maxEff ≤ s1.cnt + 1
-            · simp only [hm, if_true] at e4
-              have hm' : cfg.maxEff ≤ r.streak + 1 := by rw [← hcnt]; exact hm
-              simp only [hm', decide_true, if_true]
-              rw [e4.2, hnow]
-            · simp only [hm, if_false] at e4
-              rw [e4.1] at hf; exact absurd hf (by simp)
-          · intro ht
-            by_cases hm : cfg.maxEff ≤ s1.cnt + 1
-            · simp only [hm, if_true] at e4
-              rw [e4.1] at ht; exact absurd ht (by simp)
-            · simp only [hm, if_false] at e4
-              have hm' : ¬ cfg.maxEff ≤ r.streak + 1 := by rw [← hcnt]; exact hm
-              simp only [hm', decide_false, Bool.false_eq_true, if_false]
-              rw [e2]; exact hcl'
-          · simp [eventOk, noSwallow, cooldownRespected, filterRespected, recovers, gwTried, hopen', hroute, hg, GwOut.failed]
-        | errHdr v =>
-          simp only [directLeg, List.cons_append, List.nil_append]
-          obtain ⟨e1, e2, e3, e4⟩ := onError_spec cfg { cnt := s1.cnt, ok := true, start := s1.start, now := s1.now, cache := cache }
-          simp only at e1 e2 e3 e4
-          have hnext : r.next cfg ⟨s.now, c, ⟨[.gw, .direct], directResult c⟩⟩ =
-              ⟨r.streak + 1, if decide (cfg.maxEff ≤ r.streak + 1) then some s.now else r.trip⟩ := by
-            simp [Ref.next, gwTried, hg, GwOut.failed]
-          rw [hnext]
-          refine ⟨⟨by rw [e1, hcnt], ?_, ?_, by rw [e3]; exact hca'⟩, by rw [e2]; exact hnow, ?_⟩
-          · intro hf
-            by_cases hm : cfg.maxEff ≤ s1.cnt + 1
-            · simp only [hm, if_true] at e4
-              have hm' : cfg.maxEff ≤ r.streak + 1 := by rw [← hcnt]; exact hm
-              simp only [hm', decide_true, if_true]
-              rw [e4.2, hnow]
-            · simp only [hm, if_false] at e4
-              rw [e4.1] at hf; exact absurd hf (by simp)
-          · intro ht
-            by_cases hm : cfg.maxEff ≤ s1.cnt + 1
-            · simp only [hm, if_true] at e4
-              rw [e4.1] at ht; exact absurd ht (by simp)
-            · simp only [hm, if_false] at e4
-              have hm' : ¬ cfg.maxEff ≤ r.streak + 1 := by rw [← hcnt]; exact hm
-              simp only [hm', decide_false, Bool.false_eq_true, if_false]
-              rw [e2]; exact hcl'
-          · simp [eventOk, noSwallow, cooldownRespected, filterRespected, recovers, gwTried, hopen', hroute, hg, GwOut.failed]
+        · simp [eventOk, noSwallow, cooldownRespected, filterRespected, recovers, gwTried, hopen', hroute, hg]
+      | appExc =>
+        simp only
+        have hnext : r.next cfg ⟨s.now, c, ⟨[.gw], .raiseGwApp⟩, false⟩ = r := by
+          simp [Ref.next, gwTried, hg, GwOut.failed]
+        rw [hnext]
+        refine ⟨⟨hcnt, ?_, ?_, hca'⟩, hnow, ?_⟩
+        · intro h; first | exact absurd h (by simp) | (simp only at h; rw [hokt] at h; exact absurd h (by simp))
+        · intro _; exact hcl'
+        · simp [eventOk, noSwallow, cooldownRespected, filterRespected, recovers, gwTried, hopen', hroute, hg]
+      | connErr =>
+        simp only [directLeg, List.cons_append, List.nil_append]
+        obtain ⟨e1, e2, e3, e4⟩ := onError_spec cfg { cnt := s1.cnt, ok := true, start := s1.start, now := s1.now, cache := cache, lookups := lk' }
+        simp only at e1 e2 e3 e4
+        have hnext : r.next cfg ⟨s.now, c, ⟨[.gw, .direct], directResult c⟩, false⟩ =
+            ⟨r.streak + 1, if decide (cfg.maxEff ≤ r.streak + 1) then some s.now else r.trip⟩ := by
+          simp [Ref.next, gwTried, hg, GwOut.failed]
+        rw [hnext]
+        refine ⟨⟨by rw [e1, hcnt], ?_, ?_, by rw [e3]; exact hca'⟩, by rw [e2]; exact hnow, ?_⟩
+        · intro hf
+          by_cases hm : cfg.maxEff ≤ s1.cnt + 1
+          · simp only [hm, if_true] at e4
+            have hm' : cfg.maxEff ≤ r.streak + 1 := by rw [← hcnt]; exact hm
+            simp only [hm', decide_true, if_true]
+            rw [e4.2, hnow]
+          · simp only [hm, if_false] at e4
+            rw [e4.1] at hf; exact absurd hf (by simp)
+        · intro ht
+          by_cases hm : cfg.maxEff ≤ s1.cnt + 1
+          · simp only [hm, if_true] at e4
+            rw [e4.1] at ht; exact absurd ht (by simp)
+          · simp only [hm, if_false] at e4
+            have hm' : ¬ cfg.maxEff ≤ r.streak + 1 := by rw [← hcnt]; exact hm
+            simp only [hm', decide_false, Bool.false_eq_true, if_false]
+            rw [e2]; exact hcl'
+        · simp [eventOk, noSwallow, cooldownRespected, filterRespected, recovers, gwTried, hopen', hroute, hg, GwOut.failed]
+      | errHdr v =>
+        simp only [directLeg, List.cons_append, List.nil_append]
+        obtain ⟨e1, e2, e3, e4⟩ := onError_spec cfg { cnt := s1.cnt, ok := true, start := s1.start, now := s1.now, cache := cache, lookups := lk' }
+        simp only at e1 e2 e3 e4
+        have hnext : r.next cfg ⟨s.now, c, ⟨[.gw, .direct], directResult c⟩, false⟩ =
+            ⟨r.streak + 1, if decide (cfg.maxEff ≤ r.streak + 1) then some s.now else r.trip⟩ := by
+          simp [Ref.next, gwTried, hg, GwOut.failed]
+        rw [hnext]
+        refine ⟨⟨by rw [e1, hcnt], ?_, ?_, by rw [e3]; exact hca'⟩, by rw [e2]; exact hnow, ?_⟩
+        · intro hf
+          by_cases hm : cfg.maxEff ≤ s1.cnt + 1
+          · simp only [hm, if_true] at e4
+            have hm' : cfg.maxEff ≤ r.streak + 1 := by rw [← hcnt]; exact hm
+            simp only [hm', decide_true, if_true]
+            rw [e4.2, hnow]
+          · simp only [hm, if_false] at e4
+            rw [e4.1] at hf; exact absurd hf (by simp)
+        · intro ht
+          by_cases hm : cfg.maxEff ≤ s1.cnt + 1
+          · simp only [hm, if_true] at e4
+            rw [e4.1] at ht; exact absurd ht (by simp)
+          · simp only [hm, if_false] at e4
+            have hm' : ¬ cfg.maxEff ≤ r.streak + 1 := by rw [← hcnt]; exact hm
+            simp only [hm', decide_false, Bool.false_eq_true, if_false]
+            rw [e2]; exact hcl'
+        · simp [eventOk, noSwallow, cooldownRespected, filterRespected, recovers, gwTried, hopen', hroute, hg, GwOut.failed]
 
 /-! ### case analysis of one call (for the state-level theorems) -/
 
@@ -398,27 +452,26 @@ theorem stateOk_fields (cfg : Cfg) (s : St) :
 theorem call_cases (cfg : Cfg) (s : St) (c : CallIn) :
     ((stateOk cfg s).ok = false ∧
       call cfg s c = directLeg { stateOk cfg s with cnt := 0 } [] c) ∨
-    ((stateOk cfg s).ok = true ∧ ∃ cache,
-      call cfg s c = directLeg { stateOk cfg s with cache := cache, cnt := 0 } [] c) ∨
-    ((stateOk cfg s).ok = true ∧ ∃ cache,
-      call cfg s c = gwLeg cfg { stateOk cfg s with cache := cache } c) := by
+    ((stateOk cfg s).ok = true ∧ ∃ cache lk,
+      call cfg s c = directLeg { stateOk cfg s with cache := cache, lookups := lk, cnt := 0 } [] c) ∨
+    ((stateOk cfg s).ok = true ∧ ∃ cache lk,
+      call cfg s c = gwLeg cfg { stateOk cfg s with cache := cache, lookups := lk } c) := by
   unfold call
   generalize stateOk cfg s = s1
   by_cases hok : s1.ok = true
   · right
     simp only [hok, if_true, true_and]
-    cases hal : isAllowed cfg (mkFilter cfg) s1.cache c.host c.hdr with
-    | mk b cache =>
-      cases b with
-      | false => left; exact ⟨cache, rfl⟩
-      | true => right; exact ⟨cache, rfl⟩
+    rcases hal : isAllowed cfg (mkFilter cfg) s1.cache s1.lookups c.host c.hdr with ⟨b, cache, lk, f⟩
+    cases b with
+    | false => left; exact ⟨cache, lk, by simp⟩
+    | true => right; exact ⟨cache, lk, by simp⟩
   · have hok' : s1.ok = false := by simpa using hok
     left
     simp [hok']
 
 /-- Every call contacts at least one leg. -/
 theorem call_sent_ne_nil (cfg : Cfg) (s : St) (c : CallIn) : (call cfg s c).2.sent ≠ [] := by
-  rcases call_cases cfg s c with ⟨_, e⟩ | ⟨_, x, e⟩ | ⟨_, x, e⟩ <;> rw [e]
+  rcases call_cases cfg s c with ⟨_, e⟩ | ⟨_, x, y, e⟩ | ⟨_, x, y, e⟩ <;> rw [e]
   · simp [directLeg]
   · simp [directLeg]
   · unfold gwLeg
@@ -443,9 +496,10 @@ theorem adv_rel (cfg : Cfg) (s : St) (r : Ref) (d : Nat) (h : Rel cfg s r) :
 
 theorem decide_rel (cfg : Cfg) (hw : cfg.wf = true) (s : St) (r : Ref) (h : Str) (hdr : Hdr)
     (hrel : Rel cfg s r) :
-    Rel cfg { s with cache := (isAllowed cfg (mkFilter cfg) s.cache h hdr).2 } r := by
+    Rel cfg { s with cache := (isAllowed cfg (mkFilter cfg) s.cache s.lookups h hdr).cache,
+                     lookups := (isAllowed cfg (mkFilter cfg) s.cache s.lookups h hdr).lookups } r := by
   obtain ⟨h1, h2, h3, h4⟩ := hrel
-  exact ⟨h1, h2, h3, (isAllowed_spec cfg hw s.cache h4 h hdr).2⟩
+  exact ⟨h1, h2, h3, (isAllowed_spec cfg hw s.cache h4 s.lookups h hdr).1⟩
 
 theorem run_holds (cfg : Cfg) (hw : cfg.wf = true) (is : List Input) :
     ∀ (s : St) (r : Ref), Rel cfg s r → holdsFrom cfg r (run cfg s is) = true := by
@@ -481,24 +535,40 @@ theorem runDec_ok (cfg : Cfg) (hw : cfg.wf = true) (is : List Input) :
       simp only [runDec, step]
       exact ih _ _ h1
     | decide h hdr =>
-      have hd := (isAllowed_spec cfg hw s.cache hrel.cache h hdr).1
+      obtain ⟨_, hnf, hf⟩ := isAllowed_spec cfg hw s.cache hrel.cache s.lookups h hdr
       have := ih _ _ (decide_rel cfg hw s r h hdr hrel)
-      simp only [runDec, step, decisionsOk, List.all_cons, Bool.and_eq_true, beq_iff_eq]
-      exact ⟨hd, this⟩
+      simp only [runDec, step, decisionsOk, List.all_cons, Bool.and_eq_true]
+      refine ⟨?_, this⟩
+      cases hfl : (isAllowed cfg (mkFilter cfg) s.cache s.lookups h hdr).fault with
+      | true => simp [(hf hfl).1]
+      | false => simp [hnf hfl]
 
-/-- A resolver failure of any modelled kind is "cannot classify": not external, nothing cached. -/
-theorem isExternal_of_resolver_failure (cfg : Cfg) (c : Cache) (h : Str)
+/-- A resolver failure of any modelled kind - also a transient one - is "cannot classify": not
+    external, nothing cached. -/
+theorem isExternal_of_resolver_failure (cfg : Cfg) (c : Cache) (lk : Lookups) (h : Str)
     (hv : validateIp h = false) (hc : cacheGet c h = none)
-    (hr : ∀ a, cfg.resolve h ≠ .ip a) : isExternal cfg c h = (false, c) := by
-  unfold isExternal isExternalRaw isExternalDomain
+    (hr : ∀ a, cfg.resolve h ≠ .ip a) :
+    (isExternal cfg c lk h).allowed = false ∧ (isExternal cfg c lk h).cache = c := by
+  unfold isExternal isExternalNow isExternalDomain
   simp only [hc, hv, Bool.false_eq_true, if_false]
-  cases hres : cfg.resolve h with
-  | ip a => exact absurd hres (hr a)
-  | gaierror => rfl
-  | oserror => rfl
-  | herror => rfl
-  | timeout => rfl
-  | unicodeErr => rfl
+  by_cases ht : lookupCount lk h < cfg.transientFor h
+  · simp [ht]
+  · simp only [ht, if_false]
+    cases hres : cfg.resolve h with
+    | ip a => exact absurd hres (hr a)
+    | gaierror => simp
+    | oserror => simp
+    | herror => simp
+    | timeout => simp
+    | unicodeErr => simp
+
+/-- A transient resolver failure is not remembered: the cache is untouched and the answer is "no". -/
+theorem isExternal_of_transient (cfg : Cfg) (c : Cache) (lk : Lookups) (h : Str)
+    (hv : validateIp h = false) (hc : cacheGet c h = none)
+    (ht : lookupCount lk h < cfg.transientFor h) :
+    isExternal cfg c lk h = ⟨false, c, bumpLookup lk h, true⟩ := by
+  unfold isExternal isExternalNow
+  simp [hc, hv, ht]
 
 /-! ### consequences of the Spec predicate on histories -/
 
@@ -620,17 +690,18 @@ theorem external_false_of_no_addr (cfg : Cfg) (h : Str) (hp : parseIPv4 h = none
       | _ => rfl
   simp [external, hd]
 
-theorem isAllowed_of_resolver_failure (cfg : Cfg) (c : Cache) (h : Str) (hdr : Hdr)
+theorem isAllowed_of_resolver_failure (cfg : Cfg) (c : Cache) (lk : Lookups) (h : Str) (hdr : Hdr)
     (hh : hdrOverride hdr = none) (ha : (mkFilter cfg).allow = none)
     (hv : validateIp h = false) (hc : cacheGet c h = none)
     (hr : ∀ a, cfg.resolve h ≠ .ip a) :
-    isAllowed cfg (mkFilter cfg) c h hdr = (false, c) := by
+    (isAllowed cfg (mkFilter cfg) c lk h hdr).allowed = false ∧
+    (isAllowed cfg (mkFilter cfg) c lk h hdr).cache = c := by
   unfold isAllowed
   simp only [hh, ha]
   split
-  · rfl
+  · exact ⟨rfl, rfl⟩
   · split
-    · exact isExternal_of_resolver_failure cfg c h hv hc hr
-    · rfl
+    · exact isExternal_of_resolver_failure cfg c lk h hv hc hr
+    · exact ⟨rfl, rfl⟩
 
 end LunarVerif.C19
